@@ -26,6 +26,25 @@ def extract(ctx, rule='C17-R1'):
         raise AnalysisError(rule, 'significant_cloud takes no parameter')
     # R2: on every path the function returns the list its own loop has just built
     ret = T.peel(summ.ret)
+    # R2 (memoised form): the flags come out of a helper that keeps its results between calls
+    # (functools.lru_cache / cache): the list handed out is the cached object itself
+    for _g, v in (ret[1] if T.tag(ret) == 'phi' else [(None, ret)]):
+        v = T.peel(v)
+        if T.tag(v) == 'call' and T.tag(v[1]) == 'g':
+            try:
+                callee = p.func(v[1][1], rule)
+            except AnalysisError:
+                continue
+            memo = [d for d in callee.decorators
+                    if d in ('functools.lru_cache', 'functools.cache', 'functools.cached_property')]
+            if memo:
+                ctx.saw(callee)
+                ctx.violation('C17-R2', callee.qname, callee.node.name, callee.loc(),
+                              f'significant_cloud returns the result of {callee.qname}, which is memoised ({memo[0]}): '
+                              'the list handed out is the cached object itself, so it is not a function of this okta '
+                              'sequence alone - a caller that edits the list it got changes the answer to the next '
+                              'identical question (values and length)',
+                              instance='significant_cloud returns its own accumulator on every path')
     if T.tag(ret) == 'phi':
         from dataclasses import replace
         own = [(g, v) for g, v in ret[1] if T.tag(T.peel(v)) == 'loopres']
